@@ -43,8 +43,12 @@ func main() {
 				res, herr := safeCall(h, line)
 				if herr != nil {
 					enc.Encode(map[string]interface{}{"harnessError": herr.Error()})
+				} else if b, merr := json.Marshal(res); merr != nil {
+					// e.g. a NaN / ±Inf among the values: JSON cannot carry it; answer all the same
+					enc.Encode(map[string]interface{}{"harnessError": "unencodable result: " + merr.Error()})
 				} else {
-					enc.Encode(res)
+					out.Write(b)
+					out.WriteByte('\n')
 				}
 			}
 			out.Flush()
